@@ -119,6 +119,28 @@ def lowerASCIILoop : Bytes → Nat → Nat → Bytes
 
 def lowerASCII (s : Bytes) : Bytes := lowerASCIILoop s 0 s.length
 
+/-- Two instances of ONE compiled pattern (two extractor workers), their calls interleaved by a
+schedule: `true` = the call goes to the first instance.  The `Dissect` is shared, each instance
+has its own pool (`CreateInstance`). -/
+def runTwo : Instance → Instance → List (Bool × Bytes) →
+    Except String (List (Bool × Option View) × Instance × Instance)
+  | a, b, [] => .ok ([], a, b)
+  | a, b, (w, l) :: rest =>
+    if w then
+      match findSubmatchIndex a l with
+      | .error e => .error e
+      | .ok (r, a') =>
+        match runTwo a' b rest with
+        | .error e => .error e
+        | .ok (rs, a'', b'') => .ok ((true, r) :: rs, a'', b'')
+    else
+      match findSubmatchIndex b l with
+      | .error e => .error e
+      | .ok (r, b') =>
+        match runTwo a b' rest with
+        | .error e => .error e
+        | .ok (rs, a'', b'') => .ok ((false, r) :: rs, a'', b'')
+
 /-- `Compile(expr)` = `CompileEx(expr, false)` -/
 def compile (expr : Bytes) : Except CErr Dissect := compileEx expr false
 
